@@ -235,6 +235,18 @@ func runSynth(c *harness.Ctx) harness.Result {
 		l.desc += " debug-only copy (segments without file content)"
 		c.Stat("debug_only_files", 1)
 	}
+	// a partially stripped copy (the code kept in memory size only, as in a file made for
+	// symbolization after the binary was deployed): the executable segment keeps its offset,
+	// address and memory size but only the first bytes of its file content; the runtime mappings
+	// are still those of the file that was loaded. pprof documents that it places such a segment by
+	// its memory size; it may refuse, it may not translate through a neighbouring segment.
+	partial := !debugOnly && l.phs[l.xseg].Filesz > 0x40 && r.Intn(6) == 0
+	if partial {
+		written = append([]elf.Prog64(nil), l.phs...)
+		written[l.xseg].Filesz = uint64(1 + r.Intn(0x40))
+		l.desc += fmt.Sprintf(" partially stripped copy (executable segment filesz=%#x in the file)", written[l.xseg].Filesz)
+		c.Stat("partially_stripped_files", 1)
+	}
 	if err := writeELF(path, l.typ, written, l.secs...); err != nil {
 		return harness.Result{Verdict: harness.Inconclusive, Detail: err.Error()}
 	}
@@ -272,12 +284,19 @@ func runSynth(c *harness.Ctx) harness.Result {
 	type mp struct{ start, limit, off uint64 }
 	maps := []mp{{mstart, mlimit, moff}}
 	split := false
-	if mlimit-mstart >= 2*pg && r.Intn(3) == 0 { // mapping reported in two pieces
+	if mlimit-mstart >= 2*pg && (r.Intn(3) == 0 || partial) { // mapping reported in two pieces
 		mid := mstart + pg*uint64(1+r.Intn(int((mlimit-mstart)/pg)-1))
+		if partial && r.Intn(2) == 0 {
+			// the second piece is the last page alone, which a packed neighbour shares
+			mid = mlimit - pg
+			if l.sharedPage(l.xseg) {
+				c.Stat("partially_stripped_tail_on_shared_page", 1)
+			}
+		}
 		maps = []mp{{mstart, mid, moff}, {mid, mlimit, moff + (mid - mstart)}}
 		split = true
 	}
-	shared := l.sharedPage(l.xseg) || l.aliased
+	shared := l.sharedPage(l.xseg) || l.aliased || partial
 	// adjacent mappings of one file with consecutive offsets are reported (and merged by pprof's
 	// own parsers) as one: the tail of the executable segment's mapping, from any of its pages on,
 	// together with the mapping of the following segment
